@@ -12,6 +12,7 @@ import (
 	"testing"
 	"time"
 
+	"github.com/alibaba/RedisShake/redis-shake/checkpoint"
 	conf "github.com/alibaba/RedisShake/redis-shake/configure"
 	"github.com/alibaba/RedisShake/redis-shake/dbSync"
 	"github.com/alibaba/RedisShake/redis-shake/dbSync/slot"
@@ -30,6 +31,7 @@ type e2eScript struct {
 	cmds   [][][]byte
 	gaps   []time.Duration // pause after each command
 	dropAt int             // drop the link after this command index (-1 never)
+	mode   string          // fresh | resume-continue | resume-fullresync
 }
 
 func (s e2eScript) String() string {
@@ -45,12 +47,16 @@ func (s e2eScript) String() string {
 		}
 		parts = append(parts, p)
 	}
-	return fmt.Sprintf("start=%d [%s]", s.start, strings.Join(parts, " ; "))
+	return fmt.Sprintf("mode=%s start=%d [%s]", s.mode, s.start, strings.Join(parts, " ; "))
 }
 
 func drawE2E(t *rapid.T) e2eScript {
 	s := e2eScript{dropAt: -1}
+	s.mode = rapid.SampledFrom([]string{"fresh", "fresh", "resume-continue", "resume-fullresync"}).Draw(t, "mode")
 	s.start = rapid.SampledFrom([]int64{0, 999, 1 << 33}).Draw(t, "start")
+	if s.mode != "fresh" && s.start == 0 {
+		s.start = 999
+	}
 	n := rapid.IntRange(5, 12).Draw(t, "n")
 	s.cmds = append(s.cmds, bb("select", strconv.Itoa(rapid.SampledFrom([]int{0, 1, 3}).Draw(t, "db0"))))
 	s.gaps = append(s.gaps, 0)
@@ -77,7 +83,7 @@ func drawE2E(t *rapid.T) e2eScript {
 	return s
 }
 
-func runE2E(s e2eScript, id int) (sig, msg string) {
+func runE2E(s e2eScript, id int, loader bool) (sig, msg string) {
 	// command stream with end positions
 	var stream bytes.Buffer
 	ends := make([]int, len(s.cmds))
@@ -95,7 +101,11 @@ func runE2E(s e2eScript, id int) (sig, msg string) {
 	rdb = append(rdb, gen.OpEOF)
 	rdb = binary.LittleEndian.AppendUint64(rdb, crcOf(rdb))
 	var steps []fsrc.Step
-	steps = append(steps, fsrc.Step{Send: []byte(fmt.Sprintf("+FULLRESYNC %s %d\r\n$%d\r\n", c08RunID, s.start, len(rdb)))}, fsrc.Step{Send: rdb})
+	if s.mode == "resume-continue" {
+		steps = append(steps, fsrc.Step{Send: []byte("+CONTINUE\r\n")})
+	} else {
+		steps = append(steps, fsrc.Step{Send: []byte(fmt.Sprintf("+FULLRESYNC %s %d\r\n$%d\r\n", c08RunID, s.start, len(rdb)))}, fsrc.Step{Send: rdb})
+	}
 	prev := 0
 	sentBeforeDrop := len(data)
 	for i := range s.cmds {
@@ -110,9 +120,15 @@ func runE2E(s e2eScript, id int) (sig, msg string) {
 	if s.dropAt < 0 {
 		steps = append(steps, fsrc.Step{Sleep: 5 * time.Second})
 	}
-	plans := []fsrc.Plan{{Steps: steps}}
+	var firstPSync string
 	var psync string
 	var pmu sync.Mutex
+	plans := []fsrc.Plan{{Steps: steps, OnPSync: func(runid string, offset int64) []fsrc.Step {
+		pmu.Lock()
+		firstPSync = fmt.Sprintf("%s %d", runid, offset)
+		pmu.Unlock()
+		return nil
+	}}}
 	if s.dropAt >= 0 {
 		plans = append(plans, fsrc.Plan{OnPSync: func(runid string, offset int64) []fsrc.Step {
 			pmu.Lock()
@@ -136,7 +152,21 @@ func runE2E(s e2eScript, id int) (sig, msg string) {
 	tgt := mredis.New()
 	tgt.Password = tgtSentinel
 	tgt.Listen()
+	putOldCheckpoint := func(db int, runid string, offset int64) {
+		tgt.Put(db, "redis-shake-checkpoint", &mredis.Entry{Kind: "hash", Hash: map[string]string{
+			src.Addr() + "-runid": runid, src.Addr() + "-version": "1", src.Addr() + "-offset": strconv.FormatInt(offset, 10)}})
+	}
 	tgt.Register(gen.Payload(gen.TString, val, gen.DumpVersion), gen.Value{Kind: "string", Str: []byte("v")})
+	// a checkpoint left behind by an earlier run (resume modes)
+	firstDB, _ := strconv.Atoi(string(s.cmds[0][1]))
+	oldRun := c08RunID
+	oldOffset := s.start
+	if s.mode == "resume-fullresync" {
+		oldRun, oldOffset = "01d01d01d01d01d01d01d01d01d01d01d01d01d0", s.start/2
+	}
+	if s.mode != "fresh" {
+		putOldCheckpoint(firstDB, oldRun, oldOffset)
+	}
 	defer func() {
 		src.Default = &fsrc.Plan{Refuse: true}
 		for _, c := range src.ConnList() {
@@ -201,8 +231,22 @@ func runE2E(s e2eScript, id int) (sig, msg string) {
 			return "e2e:reconnect-offset", fmt.Sprintf("after the drop the tool sent PSYNC %q, want %q", ps, wantPS)
 		}
 	}
+	pmu.Lock()
+	fps := firstPSync
+	pmu.Unlock()
+	wantFirst := " -1"
+	if s.mode != "fresh" {
+		wantFirst = fmt.Sprintf("%s %d", oldRun, oldOffset+1)
+	}
+	if fps != wantFirst {
+		return "e2e:first-psync", fmt.Sprintf("the run started with PSYNC %q, want %q (checkpoint left in the target: run id %q offset %d db %d)", fps, wantFirst, oldRun, oldOffset, firstDB)
+	}
+	// the newest checkpoint must carry the run id of the source that produced these offsets
+	if ck := readCheckpointFor(tgt, "redis-shake-checkpoint", src.Addr()); ck.found && len(want) > 0 && (ck.runid != c08RunID || !ck.hasVer) {
+		return "e2e:checkpoint-runid", fmt.Sprintf("newest checkpoint (offset %d, db %d) carries run id %q (version present: %v); the offsets were produced under run id %q", ck.offset, ck.db, ck.runid, ck.hasVer, c08RunID)
+	}
 	// every stored checkpoint offset == start + end position of the last source command of its group
-	valid := map[int64]int{}
+	valid := map[int64]int{s.start: -1} // a resumed run announces its start db with the start offset itself
 	for i, e := range ends {
 		valid[s.start+int64(e)] = i
 	}
@@ -223,7 +267,7 @@ func runE2E(s e2eScript, id int) (sig, msg string) {
 			off, _ := strconv.ParseInt(string(cm.Argv[3]), 10, 64)
 			idx, ok := valid[off]
 			if !ok {
-				return "e2e:checkpoint-offset", fmt.Sprintf("checkpoint offset %d is not start(%d) + the end position of a source command (ends %v)", off, s.start, ends)
+				return "e2e:checkpoint-offset", fmt.Sprintf("checkpoint offset %d is neither start(%d) nor start + the end position of a source command (ends %v)", off, s.start, ends)
 			}
 			// the group holding this checkpoint ends with source command idx: exactly the rpush commands up to idx are applied
 			n := 0
@@ -240,6 +284,28 @@ func runE2E(s e2eScript, id int) (sig, msg string) {
 	if nck == 0 && len(want) > 0 {
 		return "e2e:no-checkpoint", "data was applied but no checkpoint was stored"
 	}
+	if loader && len(want) > 0 {
+		// writer/reader agreement: the loader must read back the run id the sender ran under and the last stored offset
+		var lastOff int64 = -1
+		for _, cm := range log {
+			if cm.Name == "hset" && len(cm.Argv) == 4 && strings.HasSuffix(string(cm.Argv[2]), "-offset") {
+				lastOff, _ = strconv.ParseInt(string(cm.Argv[3]), 10, 64)
+			}
+		}
+		var runid string
+		var offset int64
+		var db int
+		var err error
+		res := logcap.Run(func() {
+			runid, offset, db, err = checkpoint.LoadCheckpoint(id, src.Addr(), []string{tgt.Addr()}, "auth", tgtSentinel, "redis-shake-checkpoint", false, false)
+		})
+		if !res.Completed || err != nil {
+			return "e2e:loader-refused", fmt.Sprintf("LoadCheckpoint failed on the state the sender left behind: %v %v", err, res)
+		}
+		if runid != c08RunID || offset != lastOff {
+			return "e2e:loader-disagrees", fmt.Sprintf("the sender ran under run id %q and last stored offset %d; the loader reads back (run id %q, offset %d, db %d)", c08RunID, lastOff, runid, offset, db)
+		}
+	}
 	return "", ""
 }
 
@@ -247,7 +313,12 @@ func crcOf(b []byte) uint64 {
 	return binary.LittleEndian.Uint64(appendCRC(append([]byte{}, b...))[len(b):])
 }
 
-func c08E2EBatch(t *rapid.T) {
+func c08E2EBatch(t *rapid.T) { e2eBatch(t, "C08") }
+
+// c14E2EBatch: the same end-to-end runs, judged only on writer/reader agreement of the checkpoint (C14).
+func c14E2EBatch(t *rapid.T) { e2eBatch(t, "C14") }
+
+func e2eBatch(t *rapid.T, prop string) {
 	o := &conf.Options
 	o.ResumeFromBreakPoint, o.Parallel, o.KeyExists, o.TargetDB = true, 1, "none", -1
 	o.SenderCount, o.SenderSize = uint(rapid.SampledFrom([]int{1, 3, 1024}).Draw(t, "senderCount")), 104857600
@@ -256,6 +327,12 @@ func c08E2EBatch(t *rapid.T) {
 	scripts := make([]e2eScript, k)
 	for i := range scripts {
 		scripts[i] = drawE2E(t)
+		if prop == "C14" && scripts[i].mode == "fresh" {
+			scripts[i].mode = "resume-fullresync"
+			if scripts[i].start == 0 {
+				scripts[i].start = 999
+			}
+		}
 	}
 	type res struct{ sig, msg string }
 	outs := make([]res, k)
@@ -265,19 +342,22 @@ func c08E2EBatch(t *rapid.T) {
 		go func(i int) {
 			defer wg.Done()
 			id := <-incrSlots
-			outs[i].sig, outs[i].msg = runE2E(scripts[i], id)
+			outs[i].sig, outs[i].msg = runE2E(scripts[i], id, prop == "C14")
 			time.AfterFunc(5*time.Second, func() { incrSlots <- id })
 		}(i)
 	}
 	wg.Wait()
 	dropLeftoverAborts()
 	for i, r := range outs {
+		if prop == "C14" && r.sig != "e2e:checkpoint-runid" && !strings.HasPrefix(r.sig, "e2e:loader-") {
+			r.sig = "" // everything else is C08's to judge
+		}
 		if r.sig != "" {
-			if violation(t, "C08", r.sig, "sender.count=%d; %s: %s", o.SenderCount, scripts[i], r.msg) {
+			if violation(t, prop, r.sig, "sender.count=%d; %s: %s", o.SenderCount, scripts[i], r.msg) {
 				continue
 			}
 		}
-		stats.C.Case(true, stats.HashS(scripts[i].String()), "end-to-end", fmt.Sprintf("e2e-drop=%v", scripts[i].dropAt >= 0))
+		stats.C.Case(true, stats.HashS(scripts[i].String()), "end-to-end", fmt.Sprintf("e2e-drop=%v", scripts[i].dropAt >= 0), "e2e-mode="+scripts[i].mode)
 		if len(scripts[i].cmds) <= 9 {
 			stats.C.Sample("end-to-end Sync(): " + scripts[i].String())
 		}
@@ -285,3 +365,4 @@ func c08E2EBatch(t *rapid.T) {
 }
 
 func TestC08EndToEnd(t *testing.T) { rapid.Check(t, c08E2EBatch) }
+func TestC14EndToEnd(t *testing.T) { rapid.Check(t, c14E2EBatch) }
